@@ -1666,6 +1666,38 @@ func fieldAddrName(fa *ssa.FieldAddr) string {
 
 // checkStringDecoder (C18-D4b; shared with C13: two topic names folded into one key share their listing and counters).
 func checkStringDecoder(p *Prog, r *Report, kp func(string, string) string, sp *ssa.Package) {
+	// the two directions of the string form apply no rewrite to a component, or rewrites that are each other's inverse: an escape
+	// on the way out that another function undoes on the way in (PathEscape / QueryUnescape: '+' comes back as a space) moves
+	// every entry whose component contains the character the two disagree on
+	{
+		rewriters := func(fn *ssa.Function) []string {
+			var out []string
+			if fn == nil {
+				return out
+			}
+			for _, cs := range callSites(fn) {
+				n := cs.Name
+				for _, pfx := range []string{"net/url.", "strconv.Quote", "strconv.Unquote", "encoding/hex.", "encoding/base64.", "(*encoding/base64.", "html.", "path.", "path/filepath.",
+					"strings.ToLower", "strings.ToUpper", "strings.Trim", "strings.Replace", "strings.Map", "strings.Title", "strings.ToValidUTF8", "(*strings.Replacer)."} {
+					if strings.HasPrefix(n, pfx) {
+						out = append(out, n)
+						break
+					}
+				}
+			}
+			sort.Strings(out)
+			return out
+		}
+		enc, dec := rewriters(sp.Func("EncodeToString")), rewriters(sp.Func("DecodeFromString"))
+		inverse := map[string]string{"net/url.PathEscape": "net/url.PathUnescape", "net/url.QueryEscape": "net/url.QueryUnescape",
+			"strconv.Quote": "strconv.Unquote", "encoding/hex.EncodeToString": "encoding/hex.DecodeString"}
+		ok := len(enc) == 0 && len(dec) == 0
+		if len(enc) == 1 && len(dec) == 1 && inverse[enc[0]] == dec[0] {
+			ok = true
+		}
+		r.Check(ok, kp("AGREE", "compkey.EncodeToString/DecodeFromString#rewrites-are-inverse"), "the string form rewrites no component, or the decoder applies the exact inverse of the encoder's rewrite", p.FnPos(sp.Func("DecodeFromString")),
+			fmt.Sprintf("encoder rewrites %v, decoder rewrites %v", enc, dec), fmt.Sprintf("the encoder applies %v to the components and the decoder %v: these are not a recognised inverse pair, so a component containing a character the two treat differently is read back as another key (its entry moves to another topic or owner on import)", enc, dec))
+	}
 	// the string decoder itself: Split with the separator handed in
 	for name, want := range map[string]string{"DecodeFromString": "strings.Split"} {
 		fn := sp.Func(name)
